@@ -150,13 +150,14 @@ pub fn rt_event(text: &[u8], origin: &str) -> Option<J> {
     let v: sonic_rs::Value = catch(|| sonic_rs::from_slice(text).ok()).ok()??;
     let dump = dump_value(&v).unwrap_or_else(|e| json!({"t":"inconsistent","why":e}));
     let s = sonic_rs::to_string(&v).ok()?;
-    let v2: sonic_rs::Value = sonic_rs::from_str(&s).ok()?;
-    let s2 = sonic_rs::to_string(&v2).ok()?;
+    // a serialisation that does not parse back is a finding, not a reason to drop the event
+    let (v2, s2): (sonic_rs::Value, String) = match sonic_rs::from_str::<sonic_rs::Value>(&s) { Ok(v2) => { let s2 = sonic_rs::to_string(&v2).ok()?; (v2, s2) } Err(e) => (sonic_rs::Value::default(), format!("<reparse failed: {e}>")) };
     let pretty = sonic_rs::to_string_pretty(&v).ok()?;
     let display = format!("{}", v);
     let vec = sonic_rs::to_vec(&v).ok()?;
     let sraw = { let mut de = sonic_rs::Deserializer::from_slice(text).use_rawnumber(); let rv: sonic_rs::Value = de.deserialize().ok()?; sonic_rs::to_string(&rv).ok()? };
-    Some(json!({"ev":"rt","origin":origin,"t":bytes_j(text),"dump":dump,"s":bytes_j(s.as_bytes()),"s2":bytes_j(s2.as_bytes()),"pretty":bytes_j(pretty.as_bytes()),
+    let dump_s = dump_value(&v2).unwrap_or_else(|e| json!({"t":"inconsistent","why":e}));
+    Some(json!({"ev":"rt","origin":origin,"sorted":cfg!(feature = "sort_keys"),"dump_s":dump_s,"t":bytes_j(text),"dump":dump,"s":bytes_j(s.as_bytes()),"s2":bytes_j(s2.as_bytes()),"pretty":bytes_j(pretty.as_bytes()),
                 "display":bytes_j(display.as_bytes()),"vec":bytes_j(&vec),"sraw":bytes_j(sraw.as_bytes())}))
 }
 
